@@ -516,7 +516,7 @@ def assignments(op, vals, build, rng, tier, pins, todo_sigs):
     o = G.OPS[op]
     chosen = []
     # diagonal: every list kind used for all list arguments at once; scalars cycle
-    per = [G.kinds_for(vt, build, v) for (an, vt), v in zip(o.args, vals)]
+    per = G.kinds_per_arg(op, vals, build)
     width = max(len(p) for p in per)
     for j in range(width):
         chosen.append(tuple(p[j % len(p)] for p in per))
